@@ -29,6 +29,29 @@ Proof.
     rewrite (IHl i); try lia. intros x Hx Hne. apply (H (S x)); lia.
 Qed.
 
+Lemma sum_nth_le l q : q < length l -> (forall x, x < length l -> (0 <= t_size (nth x l dummy_table))%Z) ->
+  (t_size (nth q l dummy_table) <= sum_sizes l)%Z /\ (0 <= sum_sizes l)%Z.
+Proof.
+  revert q; induction l as [|t l IHl]; intros q Ha H; simpl in *; [lia|].
+  pose proof (H 0 ltac:(lia)) as H0. simpl in H0.
+  assert (Hr : forall x, x < length l -> (0 <= t_size (nth x l dummy_table))%Z) by (intros x Hx; apply (H (S x)); lia).
+  destruct q.
+  - destruct l; simpl in *; [lia|]. destruct (IHl 0 ltac:(lia) Hr). lia.
+  - destruct (IHl q ltac:(lia) Hr). lia.
+Qed.
+Lemma sum_two_le l p q : p < length l -> q < length l -> p <> q ->
+  (forall x, x < length l -> (0 <= t_size (nth x l dummy_table))%Z) ->
+  (t_size (nth p l dummy_table) + t_size (nth q l dummy_table) <= sum_sizes l)%Z.
+Proof.
+  revert p q; induction l as [|t l IHl]; intros p q Ha Hb Hab H; simpl in *; [lia|].
+  pose proof (H 0 ltac:(lia)) as H0. simpl in H0.
+  assert (Hr : forall x, x < length l -> (0 <= t_size (nth x l dummy_table))%Z) by (intros x Hx; apply (H (S x)); lia).
+  destruct p, q; try lia.
+  - destruct (sum_nth_le l q ltac:(lia) Hr). lia.
+  - destruct (sum_nth_le l p ltac:(lia) Hr). lia.
+  - pose proof (IHl p q ltac:(lia) ltac:(lia) ltac:(lia) Hr). lia.
+Qed.
+
 Section Cap.
   Variable mix : N -> N.
   Variable sidx : nat -> N -> nat.
@@ -204,5 +227,149 @@ Section Cap.
         * rewrite Hsk2. congruence.
         * lia.
         * intros x Hx Hx0 Hlt. lia.
+  Qed.
+  (* own segment holds only the key, every segment the scan has passed is empty: the
+     rest of the loop takes min(deficit, number of other entries) entries unless the
+     counter is back within the capacity first *)
+  Lemma swc_loop_pays cap k fuel : forall m i deficit,
+    SWF m -> (1 <= cap)%Z -> (1 <= deficit <= 2)%Z ->
+    t_size (seg m (ksi sidx m k)) = 1%Z -> sabs m k <> None ->
+    1 <= i -> nsegs m - i <= fuel ->
+    (forall x, x < nsegs m -> 0 < dist (nsegs m) (ksi sidx m k) x -> dist (nsegs m) (ksi sidx m k) x < i ->
+       t_size (seg m x) = 0%Z) ->
+    (sm_count (swc_loop mix sidx eoff fuel m k cap i deficit) <= Z.max cap (sm_count m - Z.min deficit (sm_count m - 1)))%Z.
+  Proof.
+    induction fuel; intros m i deficit S Hcap Hdef Hown Hk Hi Hf Hzero.
+    - (* every other segment is empty: the counter is 1 *)
+      simpl. set (own := ksi sidx m k) in *.
+      assert (Hown_lt : own < nsegs m) by (apply sidx_lt; apply S).
+      assert (sum_sizes (sm_segs m) = 1%Z).
+      { rewrite (sum_single (sm_segs m) own Hown_lt); [exact Hown|].
+        intros x Hx Hne. apply Hzero; auto.
+        - destruct (dist (nsegs m) own x) eqn:E; [|lia]. apply dist_zero in E; auto. congruence.
+        - pose proof (dist_lt (nsegs m) own x Hown_lt Hx). unfold nsegs in *. lia. }
+      rewrite <- (s_count mix sidx m S) in H. lia.
+    - simpl. set (n := nsegs m) in *. set (own := ksi sidx m k) in *.
+      assert (Hown_lt : own < n) by (apply sidx_lt; apply S).
+      destruct (Nat.ltb_spec i n) as [Hin|Hge]; simpl.
+      2:{ assert (sum_sizes (sm_segs m) = 1%Z).
+          { rewrite (sum_single (sm_segs m) own Hown_lt); [exact Hown|].
+            intros x Hx Hne. apply Hzero; auto.
+            - destruct (dist n own x) eqn:E; [|lia]. apply dist_zero in E; auto. congruence.
+            - pose proof (dist_lt n own x Hown_lt Hx). lia. }
+          rewrite <- (s_count mix sidx m S) in H. lia. }
+      destruct (Z.ltb_spec 0 deficit); [|lia].
+      destruct (Z.leb_spec (sm_count m) cap) as [Hle|Hgt].
+      { unfold swc_spill. destruct (Z.leb_spec (sm_count m) cap); lia. }
+      destruct (swc_spill_step m k cap i deficit S Hgt Hin) as [m' [He [S' [Hn' [Hc' [Hd [Hother Hsj]]]]]]].
+      fold n own in He, Hother, Hsj, Hc', Hd. rewrite He.
+      set (j := (own + i) mod n) in *.
+      destruct (mod_dist n own i Hown_lt Hin) as [Hj Hdj]. fold j in Hj, Hdj.
+      assert (Hjo : j <> own) by (intro E; rewrite E, dist_self in Hdj; lia).
+      assert (Hd2 : snd (tevict mix (seg m j) (eoff k) deficit k) = Z.max 0 (Z.min deficit (t_size (seg m j)))).
+      { rewrite (tevict_count mix (seg m j) (eoff k) deficit k (s_wf mix sidx m S j Hj)).
+        assert (abs (seg m j) k = None) by (apply (other_seg_absent mix sidx m k S j Hj); exact Hjo).
+        unfold present. rewrite H0. f_equal. f_equal. lia. }
+      set (d := snd (tevict mix (seg m j) (eoff k) deficit k)) in *.
+      assert (Hsz0 : (0 <= t_size (seg m j))%Z).
+      { pose proof (wf_size mix _ (s_wf mix sidx m S j Hj)). destruct (t_zero (seg m j)); simpl in *; lia. }
+      (* segment j's entries are among the "others": size_j <= count - 1 *)
+      assert (Hnn : forall x, x < length (sm_segs m) -> (0 <= t_size (nth x (sm_segs m) dummy_table))%Z).
+      { intros x Hx. pose proof (wf_size mix _ (s_wf mix sidx m S x Hx)) as Hw.
+        unfold seg in Hw. destruct (t_zero (nth x (sm_segs m) dummy_table)); simpl in *; lia. }
+      assert (Hle_j : (t_size (seg m j) <= sm_count m - 1)%Z).
+      { rewrite (s_count mix sidx m S).
+        pose proof (sum_two_le (sm_segs m) own j Hown_lt Hj ltac:(auto) Hnn) as H2. unfold seg in *. lia. }
+      destruct (Z.ltb_spec 0 d) as [Hpos|Hzero'].
+      + destruct (Z.leb_spec (deficit - d) 0) as [Hdone|Hmore].
+        * (* toll paid *)
+          destruct fuel; simpl; [lia|].
+          destruct ((Datatypes.S i <? nsegs m') && (0 <? deficit - d)%Z) eqn:E; [|lia].
+          apply andb_true_iff in E. destruct E as [_ E]. apply Z.ltb_lt in E. lia.
+        * (* one of two taken, segment j is empty now: go on with deficit 1 *)
+          assert (d = t_size (seg m j)) by lia.
+          assert (Hksi : ksi sidx m' k = own) by (unfold ksi; rewrite Hn'; reflexivity).
+          pose proof (IHfuel m' (Datatypes.S i) (deficit - d)%Z S' Hcap ltac:(lia)) as IH.
+          rewrite Hksi in IH. rewrite Hother in IH by auto.
+          specialize (IH Hown).
+          assert (Hk' : sabs m' k <> None) by (unfold Proofs_seg.sabs; rewrite Hksi; rewrite Hother by auto; exact Hk).
+          specialize (IH Hk' ltac:(lia)). rewrite Hn' in IH. fold n in IH. specialize (IH ltac:(lia)).
+          assert (Hz' : forall x : nat, x < n -> 0 < dist n own x -> dist n own x < Datatypes.S i -> t_size (seg m' x) = 0%Z).
+          { intros x Hx Hx0 Hlt. destruct (Nat.eq_dec x j) as [->|Hne].
+            - rewrite Hsj. lia.
+            - rewrite Hother by auto. apply Hzero; auto.
+              assert (dist n own x <> i) by (intro E; apply Hne; apply (dist_inj n own x j); auto; congruence). lia. }
+          specialize (IH Hz'). lia.
+      + (* segment j is empty: go on *)
+        assert (d = 0%Z) by lia. assert (t_size (seg m j) = 0%Z) by lia.
+        assert (Hksi : ksi sidx m' k = own) by (unfold ksi; rewrite Hn'; reflexivity).
+        pose proof (IHfuel m' (Datatypes.S i) deficit S' Hcap Hdef) as IH.
+        rewrite Hksi in IH. rewrite Hother in IH by auto.
+        specialize (IH Hown).
+        assert (Hk' : sabs m' k <> None) by (unfold Proofs_seg.sabs; rewrite Hksi; rewrite Hother by auto; exact Hk).
+        specialize (IH Hk' ltac:(lia)). rewrite Hn' in IH. fold n in IH. specialize (IH ltac:(lia)).
+        assert (Hz' : forall x : nat, x < n -> 0 < dist n own x -> dist n own x < Datatypes.S i -> t_size (seg m' x) = 0%Z).
+        { intros x Hx Hx0 Hlt. destruct (Nat.eq_dec x j) as [->|Hne].
+          - rewrite Hsj. lia.
+          - rewrite Hother by auto. apply Hzero; auto.
+            assert (dist n own x <> i) by (intro E; apply Hne; apply (dist_inj n own x j); auto; congruence). lia. }
+        specialize (IH Hz'). lia.
+  Qed.
+
+  (* Over capacity (however that came about: the overlap race of finding
+     swc-sparse-scan-race, or a capacity lowered at run time), calls run to
+     completion: every SetWithCap takes the counter down by at least one until it is
+     within the capacity again; within the capacity it stays there. *)
+  Theorem swc_heals m k v cap : SWF m -> (1 <= cap)%Z ->
+    (sm_count (sm_set_with_cap mix sidx eoff m k v cap) <= Z.max cap (sm_count m - 1))%Z.
+  Proof.
+    intros S Hcap. unfold sm_set_with_cap, swc_own.
+    set (i := ksi sidx m k). set (t := seg m i).
+    pose proof (ksi_lt mix sidx sidx_lt m k S) as Hi. fold i in Hi.
+    destruct (sm_set_spec mix sidx sidx_lt m k v S) as [S1 [Hn1 [Ha1 Hc1]]].
+    unfold sm_set in S1, Hn1, Ha1, Hc1. fold i t in S1, Hn1, Ha1, Hc1.
+    set (t1 := tput mix t k v) in *.
+    set (c1 := (if (tlen t <? tlen t1)%Z then (sm_count m + 1)%Z else sm_count m)) in *.
+    set (m1 := set_seg m i t1 c1) in *.
+    change (sm_count m1) with c1 in Hc1.
+    assert (Hc1le : (c1 <= sm_count m + 1)%Z) by (rewrite Hc1; destruct (present (Proofs_seg.sabs sidx m) k); lia).
+    assert (Hk1 : sabs m1 k = Some v) by (rewrite Ha1; unfold upd_abs; rewrite N.eqb_refl; reflexivity).
+    assert (Hseg1 : seg m1 i = t1) by (unfold m1, seg, set_seg; simpl; apply nth_upd_seg_eq; exact Hi).
+    assert (Hksi1 : ksi sidx m1 k = i) by (unfold ksi; rewrite Hn1; reflexivity).
+    destruct (Z.ltb_spec cap c1) as [Hover|Hok].
+    2:{ simpl. fold m1. change (sm_count m1) with c1. lia. }
+    assert (W1 : WF t1) by (rewrite <- Hseg1; apply S1; lia).
+    assert (Hpk : abs t1 k = Some v) by (unfold Proofs_seg.sabs in Hk1; rewrite Hksi1, Hseg1 in Hk1; exact Hk1).
+    pose proof (tevict_count mix t1 (eoff k) evict_toll k W1) as Hcnt.
+    unfold present in Hcnt. rewrite Hpk in Hcnt.
+    assert (Hi1 : i < nsegs m1) by lia.
+    pose proof (evict_seg_spec mix sidx sidx_lt m1 i (eoff k) evict_toll k S1 Hi1) as H1. rewrite Hseg1 in H1.
+    destruct (tevict_spec mix t1 (eoff k) evict_toll k W1) as [_ [_ [Hsz2 _]]].
+    destruct (tevict mix t1 (eoff k) evict_toll k) as [t2 d] eqn:Ee. simpl in *.
+    destruct H1 as [S2 [Hn2 [Hsh2 [Hsk2 Hd]]]].
+    assert (Heq : set_seg m i t2 (if (0 <? d)%Z then (c1 - d)%Z else c1) = set_seg m1 i t2 (c1 - d)%Z).
+    { unfold set_seg, m1. simpl. f_equal.
+      - symmetry. apply upd_seg_twice.
+      - destruct (Z.ltb_spec 0 d); lia. }
+    change (sm_count m1) with c1 in S2, Hn2, Hsh2, Hsk2.
+    rewrite Heq. set (m2 := set_seg m1 i t2 (c1 - d)%Z) in *.
+    assert (Hsz1 : (1 <= t_size t1)%Z).
+    { pose proof (wf_size mix t1 W1). unfold abs in Hpk. destruct (N.eqb_spec k 0).
+      - rewrite Hpk in H. simpl in H. lia.
+      - apply dget_some in Hpk. destruct (has_key _ _ _ Hpk) as [x [Hx Hkx]].
+        assert (0 < occ (t_data t1)) by (apply (occ_pos _ x); auto; congruence).
+        destruct (t_zero t1); simpl in *; lia. }
+    unfold evict_toll, evict_toll_deficit in *.
+    destruct (Z.leb_spec (2 - d) 0) as [Hdone|Hmore].
+    - change (sm_count m2) with (c1 - d)%Z. lia.
+    - (* fewer than two taken: the own segment holds only the key now *)
+      assert (Hksi2 : ksi sidx m2 k = i) by (unfold ksi; rewrite Hn2, Hn1; reflexivity).
+      assert (Hseg2 : seg m2 i = t2) by (unfold m2, seg, set_seg; simpl; apply nth_upd_seg_eq; unfold m1, set_seg; simpl; rewrite upd_seg_length; exact Hi).
+      pose proof (swc_loop_pays cap k (nsegs m2) m2 1 (2 - d)%Z S2 Hcap ltac:(lia)) as HP.
+      rewrite Hksi2, Hseg2 in HP. specialize (HP ltac:(lia)).
+      assert (Hk2 : sabs m2 k <> None) by (rewrite Hsk2; congruence).
+      specialize (HP Hk2 ltac:(lia) ltac:(lia)).
+      assert (Hz : forall x : nat, x < nsegs m2 -> 0 < dist (nsegs m2) i x -> dist (nsegs m2) i x < 1 -> t_size (seg m2 x) = 0%Z) by (intros; lia).
+      specialize (HP Hz). change (sm_count m2) with (c1 - d)%Z in HP. lia.
   Qed.
 End Cap.
